@@ -152,7 +152,28 @@ def zeroCut (prop fn d dimSeen : List Char) : List Char :=
       ((fn == [] && !angleDimension.contains dimSeen) || fn == zeroAngleFn) then ['0']
   else d
 
-/-- `removeMarkupNewlines` once a first `\`-newline has been found: drop every `\` + newline -/
+/-- the hexadecimal digits of an escape: `0-9`, and the bytes `c` with `'a' ≤ c|0x20 ≤ 'f'` -/
+def isHexByte (c : Char) : Bool := ('0' ≤ c && c ≤ '9') || ('a' ≤ c && c ≤ 'f') || ('A' ≤ c && c ≤ 'F')
+
+/-- `endsInHexEscape` (a933f35): the bytes end in an unescaped backslash and one to six hexadecimal digits — an escape
+that would consume a following white-space character -/
+def endsInHexEscape (b : List Char) : Bool :=
+  let hs := (b.reverse.takeWhile isHexByte).take 6
+  if hs.isEmpty then false else
+  match b.reverse.drop hs.length with
+  | '\\' :: r => (r.takeWhile (· == '\\')).length % 2 == 0
+  | _ => false
+
+/-- `removeMarkupNewlines` once a first `\`-newline has been found: drop every `\` + newline; a space is written in
+its place where the bytes written so far (`acc`, reversed) end in a hexadecimal escape -/
+def dropEscapedNewlinesAcc : List Char → List Char → List Char
+  | acc, '\\' :: '\r' :: '\n' :: r => dropEscapedNewlinesAcc (if endsInHexEscape acc.reverse then ' ' :: acc else acc) r
+  | acc, '\\' :: '\n' :: r => dropEscapedNewlinesAcc (if endsInHexEscape acc.reverse then ' ' :: acc else acc) r
+  | acc, '\\' :: '\r' :: r => dropEscapedNewlinesAcc (if endsInHexEscape acc.reverse then ' ' :: acc else acc) r
+  | acc, c :: r => dropEscapedNewlinesAcc (c :: acc) r
+  | acc, [] => acc.reverse
+
+/-- the same without the escape rule (the code before a933f35; kept for the lemmas about strings without escapes) -/
 def dropEscapedNewlines : List Char → List Char
   | '\\' :: '\r' :: '\n' :: r => dropEscapedNewlines r
   | '\\' :: '\n' :: r => dropEscapedNewlines r
@@ -168,7 +189,7 @@ def hasEscapedNewline : List Char → Bool
 
 /-- `removeMarkupNewlines` (util.go): the search for the first occurrence covers indices `1 … len-3` -/
 def removeMarkupNewlines (data : List Char) : List Char :=
-  if hasEscapedNewline ((data.take (data.length - 1)).drop 1) then data.take 1 ++ dropEscapedNewlines (data.drop 1)
+  if hasEscapedNewline ((data.take (data.length - 1)).drop 1) then dropEscapedNewlinesAcc (data.take 1).reverse (data.drop 1)
   else data
 
 /-- `css.IsURLUnquoted` for bytes without backslash -/
@@ -946,6 +967,25 @@ def minifyProperty (o : Opts) (prop : List Char) (vs : List Tok) : Option (List 
 /-- `opensComment`: would writing `next` directly behind `prev` glue `/` and `*` into a comment opener? -/
 def opensComment (prev next : List Char) : Bool := prev.getLast? == some '/' && next.head? == some '*'
 
+def isNameStartByte (c : Char) : Bool :=
+  c == '-' || c == '_' || c == '\\' || c.toNat ≥ 0x80 || ('0' ≤ c && c ≤ '9') || isLetter c
+
+/-- `gluesArgs` (a933f35): would writing `cur` directly behind `prev`, two arguments of a function, make one token of
+them (or a function or percentage token)? -/
+def gluesArgs (ptt : TT) (pdata : List Char) (ctt : TT) (cdata : List Char) : Bool :=
+  if pdata.isEmpty || cdata.isEmpty then false
+  else if !(ptt == .ident || ptt == .hash || ptt == .number || ptt == .dimension || ptt == .atKeyword || ptt == .customPropertyName) then false
+  else if ctt == .whitespace then ptt != .number && endsInHexEscape pdata
+  else
+    let c := cdata.headD ' '
+    if ctt == .leftParen then ptt == .ident
+    else if c == '%' || c == '.' then
+      ptt == .number && (c == '%' || (match cdata with | _ :: d :: _ => '0' ≤ d && d ≤ '9' | _ => false))
+    else isNameStartByte c
+
+/-- the tokens behind which a hexadecimal escape can end (`writeDeclaration`, raw path) -/
+def escTT (tt : TT) : Bool := tt == .ident || tt == .hash || tt == .dimension
+
 mutual
 /-- a token inside a function: its lexeme, and for a nested function its arguments and `)` -/
 def writeArg : Tok → List Char
@@ -955,7 +995,7 @@ def writeFunction : Option (TT × List Char) → List Tok → List Char
   | _, [] => []
   | prev, .mk tt data args :: r =>
     (match prev with
-     | some (ptt, pdata) => if ptt != .function && opensComment pdata data then [' '] else []
+     | some (ptt, pdata) => if ptt != .function && (opensComment pdata data || gluesArgs ptt pdata tt data) then [' '] else []
      | none => []) ++
     writeArg (.mk tt data args) ++ writeFunction (some (tt, data)) r
 end
@@ -966,7 +1006,10 @@ def sepAfter (t : Tok) : Bool := t.tt == .comma || isSlash t || t.tt == .functio
 def writeVals : Option Tok → Bool → List Tok → List Char
   | _, _, [] => []
   | prev, prevSep, t :: r =>
-    (if !prevSep && t.tt != .comma && !isSlash t then [' ']
+    (if !prevSep && t.tt != .comma && !isSlash t then
+       ' ' :: (match prev with
+         | some p => if escTT p.tt && endsInHexEscape p.data then [' '] else []   -- the first space only ends the escape
+         | none => [])
      else match prev with
        | some p => if p.tt == .delim && opensComment p.data t.data then [' '] else []
        | none => []) ++
@@ -976,11 +1019,15 @@ def writeVals : Option Tok → Bool → List Tok → List Char
 def writeDeclaration (vs : List Tok) (important : Bool) : List Char :=
   writeVals none true vs ++ (if important then S "!important" else [])
 
-/-- the raw path: components written as they are, `/` and `*` kept apart -/
-def writeRaw : Option (List Char) → List Tok → List Char
+/-- the raw path: components written as they are, `/` and `*` kept apart, a second space behind a hexadecimal escape -/
+def writeRaw : Option Tok → List Tok → List Char
   | _, [] => []
   | prev, t :: r =>
-    (match prev with | some p => if opensComment p t.data then [' '] else [] | none => []) ++ t.data ++ writeRaw (some t.data) r
+    (match prev with
+     | some p =>
+       if opensComment p.data t.data then [' ']
+       else if t.tt == .whitespace && escTT p.tt && endsInHexEscape p.data then [' '] else []
+     | none => []) ++ t.data ++ writeRaw (some t) r
 
 /-! ## minifyDeclaration -/
 
